@@ -168,6 +168,28 @@ type c16Case struct {
 	ops  []c16Op
 }
 
+// c16OnlySegSize: the byte at position a (inside the JSON header) was altered; does the header still
+// parse, with every field but SegmentSize unchanged?
+func c16OnlySegSize(stored, cur []byte, base, a int) (int, bool) {
+	if a < 4 || a >= base || len(cur) < base {
+		return 0, false
+	}
+	var h0, h1 tink.PartHeader
+	if json.Unmarshal(stored[4:base], &h0) != nil || json.Unmarshal(cur[4:base], &h1) != nil {
+		return 0, false
+	}
+	v := h1.SegmentSize
+	if v == h0.SegmentSize || v < 0 {
+		return 0, false
+	}
+	h1.SegmentSize = h0.SegmentSize
+	if h1.Version != h0.Version || h1.KeyType != h0.KeyType || h1.KeyURI != h0.KeyURI ||
+		!bytes.Equal(h1.EncryptedDEK, h0.EncryptedDEK) || !bytes.Equal(h1.PQEncapsulatedKey, h0.PQEncapsulatedKey) {
+		return 0, false
+	}
+	return v, true
+}
+
 func c16Tok(got, want []byte) string {
 	switch {
 	case bytes.Equal(got, want):
@@ -214,7 +236,13 @@ func (e *c16Env) run(k int, seed uint64, c *c16Case) {
 		if m.a < len(cur) {
 			cur[m.a] ^= byte(m.b)
 		}
-		out.Line("mut xor %d %d", m.a, m.b)
+		// a flipped bit in the (unauthenticated) JSON header that changes nothing but the segment size the
+		// reader is told is the structured mutation hdr-segsize: name it so, the model predicts it
+		if v, ok := c16OnlySegSize(stored, cur, base, m.a); ok {
+			out.Line("mut hdr-segsize %d %d", v, hlen)
+		} else {
+			out.Line("mut xor %d %d", m.a, m.b)
+		}
 	case "trunc":
 		if m.a < len(cur) {
 			cur = cur[:m.a]
@@ -231,7 +259,9 @@ func (e *c16Env) run(k int, seed uint64, c *c16Case) {
 			copy(cur[i0:i0+css], cur[j0:j0+css])
 			copy(cur[j0:j0+css], tmp)
 		}
-		out.Line("mut swap %d %d", m.a, m.b)
+		// the first byte of the stream the reader sees (its header-length check looks at it; after a swap with
+		// slot 0 it is a ciphertext byte, which the model's toy cipher cannot know)
+		out.Line("mut swap %d %d %d", m.a, m.b, cur[base])
 	case "cross-whole":
 		// another part's complete stored stream under this part id
 		b, _ := e.craft(idB, c16Other(c.pt), css, nil)
@@ -512,6 +542,8 @@ func runC16(args []string) {
 	}
 	// the unauthenticated segmentSize header field: a smaller size shrinks the plaintext length the reader computes
 	emit(uint64(k), &c16Case{path: "seek", css: 128, pt: c16Gen(200), mut: c16Mut{kind: "hdr-segsize", a: 57}, offs: []int{0, 150, 187, 200}})
+	// bytes appended to the stored stream shift that length too: a 1-byte part + 15 bytes reads as empty
+	emit(uint64(k), &c16Case{path: "seek", css: 64, pt: []byte{0x49}, mut: c16Mut{kind: "append", data: bytes.Repeat([]byte{0x5c}, 15)}, offs: []int{0, 1}})
 	small := []int{64, 100, 57}
 	if f.Tier == "thorough" {
 		small = append(small, 4096, 333)
